@@ -15,12 +15,14 @@
 #include <boost/mpi/communicator.hpp>
 #include <boost/mpi/collectives.hpp>
 #include <parmcb/mpi/parmcb.hpp>
+#include <parmcb/detail/fvs.hpp>
 #include <tbb/global_control.h>
 
 using namespace boost;
 typedef adjacency_list<vecS, vecS, undirectedS, no_property,
         property<edge_weight_t, double, property<edge_index_t, std::size_t>>> Graph;
 typedef graph_traits<Graph>::edge_descriptor Edge;
+typedef graph_traits<Graph>::vertex_descriptor Vertex;
 
 static std::uint64_t mix(std::uint64_t z) { z = (z ^ (z >> 30)) * 0xBF58476D1CE4E5B9ull; z = (z ^ (z >> 27)) * 0x94D049BB133111EBull; return z ^ (z >> 31); }
 
@@ -75,6 +77,12 @@ int main(int argc, char **argv) {
         std::vector<parmcb::verif::SearchEvent> events;
         parmcb::verif::search_hook() = [&](const parmcb::verif::SearchEvent &ev) { events.push_back(ev); };
 #endif
+#ifdef PARMCB_VERIF
+        // the sorted LOCAL candidate list of this rank (hook in mpi/parmcb_sva_trees.hpp)
+        std::vector<parmcb::verif::CandidateEvent> cand_events;
+        bool cand_seen = false;
+        parmcb::verif::candidates_hook() = [&](const std::vector<parmcb::verif::CandidateEvent> &evs) { cand_events = evs; cand_seen = true; };
+#endif
 #ifdef PARMCB_SHIM
         // every rank runs its TBB regions under its own seeded schedule of the stand-in
         tbbshim::reseed(pseed * 7919 + 104729 * (world.rank() + 1) + 1, 0);
@@ -96,6 +104,19 @@ int main(int argc, char **argv) {
             evtext += "\n";
         }
 #endif
+        std::string candtext;
+#ifdef PARMCB_VERIF
+        parmcb::verif::candidates_hook() = nullptr;
+        if (cand_seen) {
+            candtext = "n " + std::to_string(cand_events.size()) + "\n";
+            for (auto &ev : cand_events) {
+                double x = std::ldexp(ev.weight, (int) scale);
+                candtext += std::to_string(ev.tree) + " " + std::to_string(ev.source) + " " + std::to_string(ev.edge) + " " + std::to_string((long long) std::llround(x)) + "\n";
+            }
+        }
+#endif
+        std::vector<std::string> candtexts;
+        mpi::gather(world, candtext, candtexts, 0);
         std::string schedtext;
 #ifdef PARMCB_SHIM
         // every parallel_reduce this rank executed, in call order, as terms of Model/Sched.lean's `Sched` (local index ranges)
@@ -146,6 +167,17 @@ int main(int argc, char **argv) {
             for (std::size_t rk = 0; rk < schedtexts.size(); rk++) {
                 std::istringstream is(schedtexts[rk]); std::string ln;
                 while (std::getline(is, ln)) if (!ln.empty()) std::cout << "rsched " << rk << " " << ln << "\n";
+            }
+            if (entry.find("fvs") != std::string::npos) {
+                std::vector<Vertex> fv; parmcb::greedy_fvs(g, std::back_inserter(fv));
+                std::cout << "fvs"; for (auto v : fv) std::cout << " " << v; std::cout << "\n";
+            }
+            for (std::size_t rk = 0; rk < candtexts.size(); rk++) {
+                std::istringstream is(candtexts[rk]); std::string ln;
+                while (std::getline(is, ln)) if (!ln.empty()) {
+                    if (ln[0] == 'n') std::cout << "rnsc " << rk << " " << ln.substr(2) << "\n";
+                    else std::cout << "rsc " << rk << " " << ln << "\n";
+                }
             }
             std::cout << "entry " << entry << " " << world.size() << "\n";
             for (auto &r : reports) std::cout << r << "\n";
